@@ -186,4 +186,114 @@ theorem xfFields_id (h : Hooks) : ∀ fs : List Field, (∀ n ∈ visNodesFields
     simp [xfFields, h1, h2]
 end
 
+
+/- every node of a type, at every position -/
+mutual
+def allNodes : Ty → List Ty
+  | .array e m => .array e m :: allNodes e
+  | .map i v m => .map i v m :: (allNodes i ++ allNodes v)
+  | .struct fs g gi m => .struct fs g gi m :: (allNodesFields fs ++ allNodesList g)
+  | .disj bs i m => .disj bs i m :: allNodesList bs
+  | .inter bs m => .inter bs m :: allNodesList bs
+  | t => [t]
+def allNodesList : List Ty → List Ty
+  | [] => []
+  | t :: ts => allNodes t ++ allNodesList ts
+def allNodesFields : List Field → List Ty
+  | [] => []
+  | f :: fs => allNodes f.ty ++ allNodesFields fs
+end
+
+mutual
+theorem xfAll_id (h : Hooks) : ∀ t : Ty, (∀ n ∈ allNodes t, NodeFixed h n) → xfAllTy h t = t
+  | .scalar .. => fun _ => by simp [xfAllTy]
+  | .ref p n m => fun hf => by
+    have := hf (.ref p n m) (by simp [allNodes]); simpa [xfAllTy, NodeFixed] using this
+  | .cref p n v m => fun hf => by
+    have := hf (.cref p n v m) (by simp [allNodes]); simpa [xfAllTy, NodeFixed] using this
+  | .array e m => fun hf => by
+    have := xfAll_id h e (fun n hn => hf n (by simp [allNodes, hn])); simp [xfAllTy, this]
+  | .map i v m => fun hf => by
+    have h1 := xfAll_id h i (fun n hn => hf n (by simp [allNodes, hn]))
+    have h2 := xfAll_id h v (fun n hn => hf n (by simp [allNodes, hn]))
+    simp [xfAllTy, h1, h2]
+  | .struct fs g gi m => fun hf => by
+    have h1 := xfAllFields_id h fs (fun n hn => hf n (by simp [allNodes, hn]))
+    have h3 := xfAllList_id' h g (fun n hn => hf n (by simp [allNodes, hn]))
+    have h2 : h.structGi gi = gi := by
+      have := hf (.struct fs g gi m) (by simp [allNodes]); simpa [NodeFixed] using this
+    simp [xfAllTy, h1, h2, h3]
+  | .enum vs m => fun hf => by
+    have := hf (.enum vs m) (by simp [allNodes]); simpa [xfAllTy, NodeFixed] using this
+  | .disj bs i m => fun hf => by
+    have h1 := xfAllList_id' h bs (fun n hn => hf n (by simp [allNodes, hn]))
+    have h2 : h.disj i = i := by
+      have := hf (.disj bs i m) (by simp [allNodes]); simpa [NodeFixed] using this
+    simp [xfAllTy, h1, h2]
+  | .inter bs m => fun hf => by
+    have h1 := xfAllList_id' h bs (fun n hn => hf n (by simp [allNodes, hn])); simp [xfAllTy, h1]
+  | .slot .. => fun _ => by simp [xfAllTy]
+  | .bad .. => fun _ => by simp [xfAllTy]
+theorem xfAllList_id' (h : Hooks) : ∀ ts : List Ty, (∀ n ∈ allNodesList ts, NodeFixed h n) → xfAllList h ts = ts
+  | [] => fun _ => by simp [xfAllList]
+  | t :: ts => fun hf => by
+    have h1 := xfAll_id h t (fun n hn => hf n (by simp [allNodesList, hn]))
+    have h2 := xfAllList_id' h ts (fun n hn => hf n (by simp [allNodesList, hn]))
+    simp [xfAllList, h1, h2]
+theorem xfAllFields_id (h : Hooks) : ∀ fs : List Field, (∀ n ∈ allNodesFields fs, NodeFixed h n) → xfAllFields h fs = fs
+  | [] => fun _ => by simp [xfAllFields]
+  | f :: fs => fun hf => by
+    have h1 := xfAll_id h f.ty (fun n hn => hf n (by simp [allNodesFields, hn]))
+    have h2 := xfAllFields_id h fs (fun n hn => hf n (by simp [allNodesFields, hn]))
+    simp [xfAllFields, h1, h2]
+end
+
+/-- a Visitor whose object hook only rewrites the type, on well-formed schemas: keys, names,
+    comments and order stay; types and entry point types are rewritten -/
+def mapTypes (g : Ty → Ty) (S : Schemas) : Schemas :=
+  S.map fun s => { s with entryPointType := g s.entryPointType
+                          objects := s.objects.map fun kv => (kv.1, { kv.2 with ty := g kv.2.ty }) }
+
+theorem visit_eq_mapTypes (g : Ty → Ty) (S : Schemas) (hw : WF S) :
+    S.map (visitSchema g (fun _ o => { o with ty := g o.ty })) = mapTypes g S := by
+  simp only [mapTypes]
+  apply List.map_congr_left
+  intro s hs
+  simp only [visitSchema]
+  rw [rebuild_map (fun o => { o with ty := g o.ty }) (fun _ => rfl) s.objects (hw s hs)]
+
+theorem mapTypes_wf (g : Ty → Ty) (S : Schemas) (hw : WF S) : WF (mapTypes g S) := by
+  intro s' hs'
+  simp only [mapTypes, List.mem_map] at hs'
+  obtain ⟨s, hs, rfl⟩ := hs'
+  have h := hw s hs
+  refine ⟨?_, ?_⟩
+  · intro kv hkv
+    simp only [List.mem_map] at hkv
+    obtain ⟨kv0, hkv0, rfl⟩ := hkv
+    exact h.1 kv0 hkv0
+  · simpa [List.map_map, Function.comp_def] using h.2
+
+/-- frame for type rewriting: objects / entry point types on which `g` is the identity -/
+theorem mapTypes_frame (tObj : Schema → Obj → Bool) (tSch : Schema → Bool) (g : Ty → Ty)
+    (ho : ∀ s o, tObj s o = false → g o.ty = o.ty) (hs : ∀ s, tSch s = false → g s.entryPointType = s.entryPointType)
+    (S : Schemas) : FrameOK tObj tSch S (mapTypes g S) :=
+  FrameOK.of_map tObj tSch
+    (fun s => { s with entryPointType := g s.entryPointType
+                       objects := s.objects.map fun kv => (kv.1, { kv.2 with ty := g kv.2.ty }) })
+    (fun _ => rfl) (fun s h => ⟨rfl, rfl, hs s h⟩)
+    (fun s => sublist_filter_map (tObj s) (fun o => { o with ty := g o.ty })
+      (fun o h => by rw [ho s o h]) s.objects) S
+
+theorem mapTypes_absent (tObj : Schema → Obj → Bool) (tSch : Schema → Bool) (g : Ty → Ty)
+    (ho : ∀ s o, tObj s o = false → g o.ty = o.ty) (hs : ∀ s, tSch s = false → g s.entryPointType = s.entryPointType)
+    (S : Schemas) (hn : NoTarget tObj S) (hns : ∀ s ∈ S, tSch s = false) : mapTypes g S = S := by
+  apply map_id_of_forall
+  intro s hsm
+  have : (s.objects.map fun kv => (kv.1, ({ kv.2 with ty := g kv.2.ty } : Obj))) = s.objects := by
+    apply map_id_of_forall
+    intro kv hkv
+    rw [ho s kv.2 (hn s hsm kv hkv)]
+  rw [this, hs s (hns s hsm)]
+
 end Cog.Xform
